@@ -14,6 +14,7 @@ void ac_putchar(int ch);
 uint32_t ac_sched(uint32_t t);
 int ac_ring_empty(void);
 int hc_capture(int cmd, int argc, const int *off, const int *term, const char (*arg)[81]);
+void hc_complete(int cmd);
 }
 
 const char *H_NAME = "conconc";
@@ -62,6 +63,8 @@ void main_passes(void *arg)
 	}
 }
 } // namespace
+
+extern "C" void hc_complete(int cmd) { (void)cmd; }
 
 extern "C" int hc_capture(int cmd, int argc, const int *off, const int *term, const char (*arg)[81])
 {
